@@ -553,7 +553,17 @@ class Exec:
                 fields.append(self.operand(st, v))
             return APP("ctor:" + name.split("::")[-1], fields)
         if rv.startswith("{closure@") or rv.startswith("{coroutine"):
-            return C(re.sub(r":\d+:\d+: \d+:\d+", "", rv), "U")
+            # closure aggregate: `{closure@file:l:c: l:c} { name: operand, ... }` -> captures as arguments
+            m = re.fullmatch(r"(\{[^}]*\}) \{(.*)\}", rv, re.S)
+            loc = re.sub(r":\d+:\d+: \d+:\d+", "", m.group(1) if m else rv)
+            if m and m.group(2).strip():
+                names, vals = [], []
+                for f in split_top(m.group(2)):
+                    k, v = f.split(":", 1)
+                    names.append(k.strip())
+                    vals.append(self.operand(st, v))
+                return APP("closure" + loc + "{" + ",".join(names) + "}", vals)
+            return C(loc, "U")
         m = re.fullmatch(r"([\w:<>, ']+)", rv)
         if m:   # unit-like enum variant / struct
             name = re.sub(r"::<.*>", "", rv)
@@ -746,10 +756,15 @@ class Smt:
     """collects declarations while translating terms of sorts int/real/bool (U terms become
     uninterpreted constants named after their printed form)"""
 
-    def __init__(self):
+    def __init__(self, mul_abstract=None):
         self.decls = {}
         self.funs = {}
         self.extra = []
+        # (bound): integer products of two non-constant operands, each known to lie in [0, bound],
+        # are replaced by a fresh variable in [0, bound^2] (non-linear integer arithmetic is where
+        # z3 and cvc5 give up; the abstraction is sound for proving the absence of overflow)
+        self.mul_abstract = mul_abstract
+        self.nmul = 0
 
     def sym(self, name, s):
         n = "|" + name.replace("|", "!").replace("\\", "/") + "|"
@@ -773,6 +788,14 @@ class Smt:
         if k == "app":
             f, args, s = t[1], t[2], t[3]
             ops = {"Add": "+", "Sub": "-", "Mul": "*", "Lt": "<", "Le": "<=", "Gt": ">", "Ge": ">=", "Eq": "=", "Ne": "distinct"}
+            if f == "Mul" and s == "int" and self.mul_abstract and args[0][0] != "c" and args[1][0] != "c":
+                self.nmul += 1
+                v = f"|mul{self.nmul}|"
+                self.decls[v] = "Int"
+                a, b = self.tr(args[0]), self.tr(args[1])
+                B = self.mul_abstract
+                self.extra.append(f"(and (>= {v} 0) (<= {v} {B * B}) (=> (and (<= {a} 1) (>= {a} 0)) (<= {v} {b})) (=> (= {a} 0) (= {v} 0)))")
+                return v
             if f in ops and len(args) == 2:
                 return f"({ops[f]} {self.tr(args[0])} {self.tr(args[1])})"
             if f == "Div":
